@@ -176,11 +176,13 @@ impl<'a, I: Iterator<Item = B> + Clone, B: Borrow<Item<'a>>> DelayedFormat<I> {
 
         match (spec, self.date, self.time) {
             (Year, Some(d), _) => write_year(w, d.year(), pad),
-            (YearDiv100, Some(d), _) => write_two(w, d.year().div_euclid(100) as u8, pad),
+            (YearDiv100, Some(d), _) => {
+                write_n(w, 2, d.year().div_euclid(100) as i64, pad, false)
+            }
             (YearMod100, Some(d), _) => write_two(w, d.year().rem_euclid(100) as u8, pad),
             (IsoYear, Some(d), _) => write_year(w, d.iso_week().year(), pad),
             (IsoYearDiv100, Some(d), _) => {
-                write_two(w, d.iso_week().year().div_euclid(100) as u8, pad)
+                write_n(w, 2, d.iso_week().year().div_euclid(100) as i64, pad, false)
             }
             (IsoYearMod100, Some(d), _) => {
                 write_two(w, d.iso_week().year().rem_euclid(100) as u8, pad)
